@@ -91,6 +91,16 @@ CHECKS = {
             'declared return type (signatures never returning successfully are reported in the evidence).',
             'Trusted: rv/models/seqtype.py (XDM type hierarchy, XPath 3.1 2.5.6 subtyping); schema types, xs:error and list types not generated.',
             'DESIGN.md section 4 (C18)'),
+    'C20': ('exploration',
+            'differential runtime monitor: generated XSD schemas and valid instances; typed values vs the schema processor, type tests vs the derivation chain, selection with vs without schema',
+            'Generated schemas over the built-in simple types (atomic, list, union, restrictions, simple content with typed attributes, '
+            'nillable, default/fixed, xsi:type, repeated model groups) for XSD 1.0 and 1.1 and instances kept only if the schema '
+            'validates them are evaluated with the schema proxy: typed values are compared with what xmlschema decodes (value, datatype '
+            'class incl. the XSD-version variant), kind tests with the declared derivation chain, arithmetic on typed nodes with the '
+            'decoded values, and the node lists of a path corpus with and without the schema.',
+            'Trusted: xmlschema 4.3.1 as validator/decoder; defaulted attributes added by the schema are treated as PSVI behaviour (selection '
+            'compared against an instance with them materialised); QName/ID types, wildcards and substitution groups not generated.',
+            'DESIGN.md section 4 (C20)'),
 }
 
 PENDING_REASON = 'check not built yet in this session (runtime-monitoring design exists in DESIGN.md section 4); not claimed until its monitor runs clean'
